@@ -135,6 +135,79 @@ func diff(got, want map[string]string) (string, string) {
 	return "", ""
 }
 
+// ---- pseudo-version family ------------------------------------------------------------------------
+
+type customFam struct {
+	count    int64
+	universe func(i int64) *mvsfake.Universe
+	rootSets [][]mvsfake.Req
+	desc     any
+}
+
+// pseudoFamily: one repository on a well-known host (github.com/o/r) with the projects a, b
+// (each: tag v1.0.0 and, at the untagged head revision 5, different content that is named by a
+// pseudo-version) and the leaves y, z. Every a-node requires none / b@v1.0.0 / b@<pseudo> and
+// none / y; every b-node requires none / a@v1.0.0 / a@<pseudo> and none / z: 6^4 universes.
+// Roots: a, b each absent / tag / pseudo-version, y absent / present. Which project of the
+// repository the resolver looks up first follows from the roots and the edges.
+func pseudoFamily() *customFam {
+	const addr = "github.com/o/r"
+	pa, pb, py, pz := addr+"/a", addr+"/b", addr+"/y", addr+"/z"
+	skeleton := func() mvsfake.RepoSpec {
+		return mvsfake.RepoSpec{Addr: addr, NRevs: 5, Branches: map[string]int{"main": 5}, Default: "main"}
+	}
+	// the pseudo-versions of a and b at revision 5 (their closest tag is v1.0.0)
+	sk := skeleton()
+	sk.Tags = []mvsfake.Tag{{Dir: "a", Version: "v1.0.0", Rev: 1}, {Dir: "b", Version: "v1.0.0", Rev: 2}, {Dir: "a", Rev: 5}, {Dir: "b", Rev: 5}}
+	w0 := mvsfake.Build(&mvsfake.Universe{Repos: []mvsfake.RepoSpec{sk}})
+	psA, psB := w0.VersionAt(pa, 5), w0.VersionAt(pb, 5)
+	aVers, bVers := []string{"", "v1.0.0", psA}, []string{"", "v1.0.0", psB}
+	f := &customFam{count: 6 * 6 * 6 * 6, desc: map[string]any{"repository": addr, "a": aVers[1:], "b": bVers[1:], "y": "v1.0.0", "z": "v1.0.0",
+		"history": "rev1 a/v1.0.0, rev2 b/v1.0.0, rev3 y/v1.0.0, rev4 z/v1.0.0, rev5 untagged new content of a and b"}}
+	f.universe = func(i int64) *mvsfake.Universe {
+		r := skeleton()
+		node := func(other string, otherVers []string, leaf string) []mvsfake.Req {
+			d := int(i % 6)
+			i /= 6
+			var rq []mvsfake.Req
+			if v := otherVers[d%3]; v != "" {
+				rq = append(rq, mvsfake.Req{Path: other, Version: v})
+			}
+			if d/3 == 1 {
+				rq = append(rq, mvsfake.Req{Path: leaf, Version: "v1.0.0"})
+			}
+			return rq
+		}
+		r.Tags = []mvsfake.Tag{
+			{Dir: "a", Version: "v1.0.0", Rev: 1, Requires: node(pb, bVers, py)},
+			{Dir: "b", Version: "v1.0.0", Rev: 2, Requires: node(pa, aVers, pz)},
+			{Dir: "y", Version: "v1.0.0", Rev: 3},
+			{Dir: "z", Version: "v1.0.0", Rev: 4},
+			{Dir: "a", Rev: 5, Requires: node(pb, bVers, py)},
+			{Dir: "b", Rev: 5, Requires: node(pa, aVers, pz)},
+		}
+		return &mvsfake.Universe{Repos: []mvsfake.RepoSpec{r}}
+	}
+	for _, a := range aVers {
+		for _, b := range bVers {
+			for _, y := range []string{"", "v1.0.0"} {
+				var s []mvsfake.Req
+				if y != "" {
+					s = append(s, mvsfake.Req{Path: py, Version: y})
+				}
+				if a != "" {
+					s = append(s, mvsfake.Req{Path: pa, Version: a})
+				}
+				if b != "" {
+					s = append(s, mvsfake.Req{Path: pb, Version: b})
+				}
+				f.rootSets = append(f.rootSets, s)
+			}
+		}
+	}
+	return f
+}
+
 // ---- crash child --------------------------------------------------------------------------------
 
 type childSpec struct {
@@ -444,28 +517,42 @@ func main() {
 		*mvsfake.Family
 		dupRoots    bool // also root sets that name one project several times
 		interrupted bool // the interrupted-fetch family: crash points and parked downloads
+		custom      *customFam
 	}
 	var fams []famT
 	if !r.Thorough() {
 		fams = []famT{
-			{&mvsfake.Family{Name: "2x2+1", Addr: "example.com", Projects: []mvsfake.ProjectDef{pa, pb, one("c", "v1.0.0")}}, true, false},
-			{&mvsfake.Family{Name: "2x2-split-repos", Addr: "example.com", Split: true, Projects: []mvsfake.ProjectDef{pa, pb}}, true, false},
-			{&mvsfake.Family{Name: "majors a,c,c@v2", Addr: "example.com", Projects: []mvsfake.ProjectDef{pa, one("c", "v1.0.0"), one("c", "v2.0.0")}}, true, false},
-			{&mvsfake.Family{Name: "majors-split", Addr: "example.com", Split: true, Projects: []mvsfake.ProjectDef{pa, one("c", "v1.0.0"), one("c", "v2.0.0")}}, true, false},
-			{&mvsfake.Family{Name: "interrupted fetch: 2x2, one repository per project, stale .dawnconfig", Addr: "example.com", Split: true, Stale: true, Projects: []mvsfake.ProjectDef{pa, pb}}, false, true},
+			{&mvsfake.Family{Name: "2x2+1", Addr: "example.com", Projects: []mvsfake.ProjectDef{pa, pb, one("c", "v1.0.0")}}, true, false, nil},
+			{&mvsfake.Family{Name: "2x2-split-repos", Addr: "example.com", Split: true, Projects: []mvsfake.ProjectDef{pa, pb}}, true, false, nil},
+			{&mvsfake.Family{Name: "majors a,c,c@v2", Addr: "example.com", Projects: []mvsfake.ProjectDef{pa, one("c", "v1.0.0"), one("c", "v2.0.0")}}, true, false, nil},
+			{&mvsfake.Family{Name: "majors-split", Addr: "example.com", Split: true, Projects: []mvsfake.ProjectDef{pa, one("c", "v1.0.0"), one("c", "v2.0.0")}}, true, false, nil},
+			{&mvsfake.Family{Name: "interrupted fetch: 2x2, one repository per project, stale .dawnconfig", Addr: "example.com", Split: true, Stale: true, Projects: []mvsfake.ProjectDef{pa, pb}}, false, true, nil},
 		}
 	} else {
 		fams = []famT{
-			{&mvsfake.Family{Name: "3x2", Addr: "example.com", Projects: []mvsfake.ProjectDef{pa, pb, two("c", "v0.9.0", "v1.0.0")}}, false, false},
-			{&mvsfake.Family{Name: "majors a(2),b,c,c@v2", Addr: "example.com", Projects: []mvsfake.ProjectDef{pa, one("b", "v1.0.0"), one("c", "v1.0.0"), one("c", "v2.0.0")}}, false, false},
-			{&mvsfake.Family{Name: "2x2+1-split-repos", Addr: "example.com", Split: true, Projects: []mvsfake.ProjectDef{pa, pb, one("c", "v1.0.0")}}, true, false},
-			{&mvsfake.Family{Name: "majors c(2),c@v2(2),a", Addr: "github.com/o/r", Projects: []mvsfake.ProjectDef{two("c", "v1.0.0", "v1.1.0"), two("c", "v2.0.0", "v2.1.0"), one("a", "v0.1.0")}}, true, false},
+			{&mvsfake.Family{Name: "3x2", Addr: "example.com", Projects: []mvsfake.ProjectDef{pa, pb, two("c", "v0.9.0", "v1.0.0")}}, false, false, nil},
+			{&mvsfake.Family{Name: "majors a(2),b,c,c@v2", Addr: "example.com", Projects: []mvsfake.ProjectDef{pa, one("b", "v1.0.0"), one("c", "v1.0.0"), one("c", "v2.0.0")}}, false, false, nil},
+			{&mvsfake.Family{Name: "2x2+1-split-repos", Addr: "example.com", Split: true, Projects: []mvsfake.ProjectDef{pa, pb, one("c", "v1.0.0")}}, true, false, nil},
+			{&mvsfake.Family{Name: "majors c(2),c@v2(2),a", Addr: "github.com/o/r", Projects: []mvsfake.ProjectDef{two("c", "v1.0.0", "v1.1.0"), two("c", "v2.0.0", "v2.1.0"), one("a", "v0.1.0")}}, true, false, nil},
 			{&mvsfake.Family{Name: "2x3", Addr: "example.com", Projects: []mvsfake.ProjectDef{
 				{Dir: "a", Versions: []string{"v1.2.0", "v1.10.0", "v1.10.1"}},
-				{Dir: "b", Versions: []string{"v0.9.0", "v1.0.0-rc.1", "v1.0.0"}}}}, true, false},
-			{&mvsfake.Family{Name: "interrupted fetch: 2x2, one repository per project, stale .dawnconfig", Addr: "example.com", Split: true, Stale: true, Projects: []mvsfake.ProjectDef{pa, pb}}, false, true},
-			{&mvsfake.Family{Name: "interrupted fetch: a(2),c,c@v2, one repository per directory, stale .dawnconfig", Addr: "example.com", Split: true, Stale: true, Projects: []mvsfake.ProjectDef{pa, one("c", "v1.0.0"), one("c", "v2.0.0")}}, false, true},
+				{Dir: "b", Versions: []string{"v0.9.0", "v1.0.0-rc.1", "v1.0.0"}}}}, true, false, nil},
+			{&mvsfake.Family{Name: "interrupted fetch: 2x2, one repository per project, stale .dawnconfig", Addr: "example.com", Split: true, Stale: true, Projects: []mvsfake.ProjectDef{pa, pb}}, false, true, nil},
+			{&mvsfake.Family{Name: "interrupted fetch: a(2),c,c@v2, one repository per directory, stale .dawnconfig", Addr: "example.com", Split: true, Stale: true, Projects: []mvsfake.ProjectDef{pa, one("c", "v1.0.0"), one("c", "v2.0.0")}}, false, true, nil},
 		}
+	}
+	fams = append(fams, famT{&mvsfake.Family{Name: "monorepo on a well-known host, tagged versions and pseudo-versions of untagged revisions"}, false, false, pseudoFamily()})
+	fcount := func(f famT) int64 {
+		if f.custom != nil {
+			return f.custom.count
+		}
+		return f.Count()
+	}
+	funiverse := func(f famT, i int64) *mvsfake.Universe {
+		if f.custom != nil {
+			return f.custom.universe(i)
+		}
+		return f.Universe(i)
 	}
 	// items: chunks of universes, families interleaved so that a time cap cuts all of them evenly
 	var perFam [][]item
@@ -475,10 +562,10 @@ func main() {
 			chunk = 2 // every crash point is a child process
 		}
 		var l []item
-		for lo := int64(0); lo < f.Count(); lo += chunk {
+		for lo := int64(0); lo < fcount(f); lo += chunk {
 			hi := lo + chunk
-			if hi > f.Count() {
-				hi = f.Count()
+			if hi > fcount(f) {
+				hi = fcount(f)
 			}
 			l = append(l, item{fi, lo, hi})
 		}
@@ -499,7 +586,9 @@ func main() {
 	}
 	rootSets := make([][][]mvsfake.Req, len(fams))
 	for i, f := range fams {
-		if f.dupRoots {
+		if f.custom != nil {
+			rootSets[i] = f.custom.rootSets
+		} else if f.dupRoots {
 			rootSets[i] = f.RootSetsDup()
 		} else {
 			rootSets[i] = f.RootSets()
@@ -525,7 +614,7 @@ func main() {
 			return
 		}
 		for ui := it.lo; ui < it.hi; ui++ {
-			u := f.Universe(ui)
+			u := funiverse(f, ui)
 			w := mvsfake.Build(u)
 			var wr *mvsfake.World
 			t.Add("universes", 1)
@@ -540,7 +629,14 @@ func main() {
 				canonical := true
 				for _, repo := range u.Repos {
 					for _, tg := range repo.Tags {
-						if len(tg.Requires) > 0 && !ref.Reach[mvsfake.Req{Path: mvsfake.ModPath(repo.Addr, tg.Dir, tg.Version), Version: tg.Version}] {
+						if len(tg.Requires) == 0 {
+							continue
+						}
+						mp, v := mvsfake.ModPath(repo.Addr, tg.Dir, tg.Version), tg.Version
+						if v == "" {
+							v = w.VersionAt(mp, tg.Rev) // untagged content: named by a pseudo-version
+						}
+						if !ref.Reach[mvsfake.Req{Path: mp, Version: v}] {
 							canonical = false
 						}
 					}
@@ -580,9 +676,12 @@ func main() {
 	bounds := map[string]any{}
 	total := int64(0)
 	for i, f := range fams {
-		bounds[f.Name] = map[string]any{"projects": f.Projects, "universes": f.Count(), "root_sets": len(rootSets[i]), "one_repo_per_project": f.Split,
+		bounds[f.Name] = map[string]any{"projects": f.Projects, "universes": fcount(f), "root_sets": len(rootSets[i]), "one_repo_per_project": f.Split,
 			"root_sets_naming_a_project_twice": f.dupRoots, "crash_points_and_parked_downloads": f.interrupted}
-		total += f.Count()
+		if f.custom != nil {
+			bounds[f.Name].(map[string]any)["projects"] = f.custom.desc
+		}
+		total += fcount(f)
 	}
 	r.Extra["universes_enumerated"] = r.Get("universes")
 	r.Extra["universes_total"] = total
